@@ -32,6 +32,8 @@ CONSTANTS
     Steps, CleanupSeq, Res, TagOf,    \* EXTRACTED
     Persistent,                       \* resources that persist by design (per domain)
     ServiceLevel,                     \* resources of the service itself (shared with other nodes)
+    StaticConfigs,                    \* the static config file(s): the cleanup finds the other service resources only
+                                      \* through an INITIALISED static config (read_static_service_config)
     Shared,                           \* TRUE: a live peer node also uses the service
     Cleaners,                         \* cleaner processes (2: the second continues after a crash of the first)
     CleanerMayCrash
@@ -97,13 +99,21 @@ Verdict ==
     ELSE IF olock # "none" THEN "dead"                        \* CleaningUp -> Dead
     ELSE IF vlock THEN "alive" ELSE "dead"
 
-\* what a cleanup can reach: the node's own files, and everything behind a tag that exists
-Reachable(r) ==
-    /\ r \in ex /\ r \notin Persistent
-    /\ ~(Shared /\ r \in ServiceLevel)
-    /\ ("node" \in TagOf[r] \/ r \in TagOf[r] \/ TagOf[r] \cap ex # {})
-
-Pending == SelectSeq(CleanupSeq, Reachable)
+\* What a cleanup reaches and in which order: it walks the tags (service tags, port tags) in the extracted
+\* order; for every tag that exists it removes what the tag leads to and the tag itself LAST; then the node's
+\* own files and finally the monitor token.
+Removable(r) == r \in ex /\ r \notin Persistent /\ ~(Shared /\ r \in ServiceLevel)
+IsTag(r) == TagOf[r] = {r}
+Pending ==
+    LET TagHere(r) == IsTag(r) /\ Removable(r)
+        tags == SelectSeq(CleanupSeq, TagHere)
+    IN IF tags # <<>>
+       THEN LET t == Head(tags)
+                Behind(r) == /\ Removable(r) /\ r # t /\ t \in TagOf[r]
+                             /\ (r \in ServiceLevel => StaticConfigs \subseteq (ex \cap fin))
+                g == SelectSeq(CleanupSeq, Behind)
+            IN IF g # <<>> THEN g ELSE <<t>>
+       ELSE LET Own(r) == Removable(r) /\ "node" \in TagOf[r] IN SelectSeq(CleanupSeq, Own)
 
 CStart(c) ==
     /\ cst[c] = "idle" /\ vdead
@@ -157,4 +167,9 @@ CleanupAlwaysEnabled == Quiet /\ Stale # {} /\ (\E c \in Cleaners : cst[c] = "id
 \* prediction for the real kill enumeration: what is left once no cleanup can make progress any more
 Settled == Quiet /\ (Verdict # "dead" \/ Stale = {} \/ \A c \in Cleaners : cst[c] # "idle")
 Predict == Settled => PrintT(<<"PREDICT", ToJson(<<crashpc, ccrash, Stale, Verdict>>)>>)
+\* the two clauses that the current code is known to violate are evaluated on every state and every refutation is
+\* printed (crash point, cleaner crash, stale resources) instead of stopping at the first one
+Refutations ==
+    /\ (CleanAfterCleanup \/ PrintT(<<"REFUTED", ToJson(<<"CleanAfterCleanup", crashpc, ccrash, Stale, Verdict>>)>>))
+    /\ (CleanupAlwaysEnabled \/ PrintT(<<"REFUTED", ToJson(<<"CleanupAlwaysEnabled", crashpc, ccrash, Stale, Verdict>>)>>))
 =============================================================================
